@@ -318,6 +318,18 @@ func exIDs(e tchannel.ExchangeSetRuntimeState) []string { return sortedKeys(e.Ex
 
 // checkPools is the end-of-run part of C12.
 func (w *World) checkPools(faultFree bool) {
+	// "on calls that complete without a fault every frame is handed back": the
+	// strict half applies to runs in which no fault was injected AND every call
+	// ran to completion (a response or a handler-sent error; no timeout, no
+	// cancellation, no relay-originated failure)
+	for _, c := range w.Calls {
+		if !c.Done || !c.completedNormally() {
+			faultFree = false
+		}
+	}
+	if faultFree {
+		w.probe("C12.clean-run")
+	}
 	for _, n := range w.Nodes {
 		w.eval("C12.outstanding")
 		if out := n.Pool.Outstanding(); out != 0 {
